@@ -583,6 +583,31 @@ def callers(P, res):
     res.floor("TransactionBody construction sites in pallas-txbuilder", n_body, 1)
 
 
+def check_redeemer_key_order(res, P):
+    """The redeemer bytes of the pre-image are produced by re-encoding `Redeemers`; in map form that is a BTreeMap keyed by
+    RedeemersKey, so the order of the entries on the wire is RedeemersKey's Ord.  The ledger's canonical order is (tag, index).
+    A derived Ord compares the fields in declaration order: the declaration order must be tag, then index (the #[n(..)] wire
+    indices are independent of it).  A hand-written Ord is reported as unrecognised (fail closed)."""
+    adt = P.adt("pallas_primitives::conway::model::RedeemersKey")
+    if adt is None:
+        res.violation("redeemers-key:anchor", "conway::RedeemersKey not found", rule="anchor")
+        return
+    ords = [i for c, i in P.impls() if i.get("adt") == adt["path"] and i.get("trait") == "core::cmp::Ord"]
+    fields = [f["name"] for f in adt["variants"][0]["fields"]]
+    key = "redeemers-key:order"
+    if not ords:
+        res.violation(key, "conway::RedeemersKey has no Ord impl although Redeemers::Map is keyed by it", rule="R-ORDER")
+    elif "Derive:Ord" in (ords[0].get("expn") or ""):
+        if fields[:2] == ["tag", "index"]:
+            res.ok(key, "R-ORDER", "derived Ord over fields (tag, index): map-form redeemers are written in the ledger's (tag, index) order")
+        else:
+            res.violation(key, "conway::RedeemersKey derives Ord over its fields in declaration order %s: a map-form redeemer set is re-encoded in that order, "
+                          "not in the ledger's (tag, index) order, so the redeemer bytes of the script-integrity pre-image are permuted" % fields,
+                          where="%s:%s" % (adt["file"], adt["line"]), rule="R-ORDER")
+    else:
+        res.violation(key + ":unrecognised", "conway::RedeemersKey has a hand-written Ord; its agreement with the ledger's (tag, index) order is not decided", rule="R-ORDER")
+
+
 def run(tier):
     res = Result("C08", tier, level="other")
     P = Program(crates=["pallas_codec", "pallas_primitives", "pallas_validate", "pallas_txbuilder"])
@@ -591,6 +616,7 @@ def run(tier):
     keepraw_encode(P, res)
     language_views(P, res)
     callers(P, res)
+    check_redeemer_key_order(res, P)
     res.assumptions += ["Blake2b-256 (pallas_crypto::hash::Hasher<256>) and minicbor's item encoders are correct",
                         "std: BTreeMap::keys is ascending, sort/sort_unstable sort ascending, Vec::push appends",
                         "the ledger formula: hash(redeemers-or-0xA0 ++ datums-or-nothing ++ language-views-or-0xA0), views only with redeemers (Conway UTXOW / Alonzo spec 4.2)"]
